@@ -107,19 +107,56 @@ class ExprMixin:
 
     def ev_JoinedStr(self, e, fr):
         parts = []
+        symbolic = False
         for v in e.values:
             if isinstance(v, ast.Constant):
                 parts.append(v.value)
-            else:
-                x = self.ev(v.value, fr)
-                if is_sym(x) or contains_sym(x):
-                    # text of messages is opaque: an uninterpreted function of its arguments would do;
-                    # a fresh string is a sound over-approximation
-                    self.assumptions.add('f-string text with symbolic parts is an opaque string')
-                    return self.path.fresh(z3.StringSort(), 'fstr')
-                conv = {-1: format, 115: str, 114: repr, 97: ascii}[v.conversion]
-                parts.append(conv(x) if v.conversion != -1 else format(x, self.ev(v.format_spec, fr) if v.format_spec else ''))
-        return ''.join(parts)
+                continue
+            x = self.ev(v.value, fr)
+            if is_sym(x) or contains_sym(x):
+                if v.format_spec is None and v.conversion in (-1, 115):
+                    try:
+                        parts.append(self.b_str([self.unwrap(x, e) if not self.cur_pure() or not isinstance(x, VOpt) else x.val], {}, e, fr))
+                        symbolic = True
+                        continue
+                    except Unsupported:
+                        pass
+                # text with parts that cannot be rendered (repr, format specs, objects) is an opaque string
+                self.assumptions.add('f-string text with unrenderable symbolic parts is an opaque string')
+                return self.path.fresh(z3.StringSort(), 'fstr')
+            conv = {-1: format, 115: str, 114: repr, 97: ascii}[v.conversion]
+            parts.append(conv(x) if v.conversion != -1 else format(x, self.ev(v.format_spec, fr) if v.format_spec else ''))
+        if not symbolic:
+            return ''.join(parts)
+        terms = [p if z3.is_expr(p) else z3.StringVal(p) for p in parts if not (isinstance(p, str) and p == '')]
+        return terms[0] if len(terms) == 1 else z3.Concat(*terms)
+
+    def percent_format(self, fmt, args, node):
+        """'...%s...%d...' % args with a concrete format string"""
+        import re as _re
+        if not isinstance(args, tuple):
+            args = (args,)
+        pieces = _re.split(r'(%[sd%])', fmt)
+        out, ai = [], 0
+        for pc in pieces:
+            if pc == '%%':
+                out.append('%')
+            elif pc in ('%s', '%d'):
+                if ai >= len(args):
+                    raise PyRaise(TypeError, ('not enough arguments for format string',), node, implicit=True)
+                a = args[ai]
+                ai += 1
+                out.append(self.b_str([a], {}, node, None) if is_sym(a) else (str(a) if pc == '%s' else '%d' % a))
+            elif '%' in pc:
+                raise Unsupported('format directive')
+            elif pc:
+                out.append(pc)
+        if ai != len(args):
+            raise PyRaise(TypeError, ('not all arguments converted',), node, implicit=True)
+        terms = [p if z3.is_expr(p) else z3.StringVal(p) for p in out]
+        if not any(z3.is_expr(p) for p in out):
+            return ''.join(out)
+        return terms[0] if len(terms) == 1 else z3.Concat(*terms)
 
     PURE_METHODS = {'strip', 'lstrip', 'rstrip', 'upper', 'lower', 'startswith', 'endswith'}
 
@@ -233,6 +270,11 @@ class ExprMixin:
         return v
 
     def binop(self, op, l, r, node=None):
+        if isinstance(op, ast.Mod) and isinstance(l, str) and (is_sym(r) or contains_sym(r)):
+            try:
+                return self.percent_format(l, r, node)
+            except Unsupported:
+                pass
         l, r = self.unwrap(l, node), self.unwrap(r, node)
         if isinstance(l, PyList) or isinstance(r, PyList):
             if isinstance(op, ast.Add) and isinstance(l, PyList) and isinstance(r, PyList):
@@ -269,6 +311,10 @@ class ExprMixin:
         if isinstance(rt, (tuple, list)) and z3.is_expr(lt):
             rt = self.zs.lift(tuple(rt), lt.sort())
         lt, rt = self.int_arm(lt, node), self.int_arm(rt, node)
+        if isinstance(op, ast.Mult) and ((isinstance(lt, str) or (z3.is_expr(lt) and z3.is_string(lt))) != (isinstance(rt, str) or (z3.is_expr(rt) and z3.is_string(rt)))):
+            # str * int: an uninterpreted function shared by code and spec
+            sv, nv = (lt, rt) if (isinstance(lt, str) or (z3.is_expr(lt) and z3.is_string(lt))) else (rt, lt)
+            return self.ufun('py_str_repeat', z3.StringSort(), z3.IntSort(), z3.StringSort())(self.zs.lift(sv, z3.StringSort()), self.zs.lift(nv, z3.IntSort()))
         a, b = self.zs.common(lt, rt)
         s = a.sort()
         if isinstance(op, ast.Add):
@@ -376,6 +422,9 @@ class ExprMixin:
 
     def contains(self, cont, x, node=None):
         cont = self.unwrap(cont, node)
+        if isinstance(x, VOpt):
+            # None is never an element / key of the containers modelled here
+            return self.land(self.lnot(x.none), self.contains(cont, x.val, node))
         if isinstance(cont, PyList):
             return self.lor(*[self.eq(x, y) for y in cont.items])
         if isinstance(cont, PyDict):
@@ -451,6 +500,8 @@ class ExprMixin:
         return VBox(kind, res, base.esort) if kind else res
 
     def index(self, base, idx, node=None):
+        if isinstance(idx, VOpt):
+            idx = self.unwrap(idx, node)
         if isinstance(base, PyDict):
             if is_sym(idx):
                 raise Unsupported('symbolic key into concrete dict')
